@@ -52,7 +52,12 @@ def _build_c01(inputs):
         with L.Workdir() as w:
             img = w.file("img.akai", raw)
             out = w.sub("out")
-            stdout, err = L.do_export(img, out)
+            if inputs.get("other_first"):
+                # another image exported earlier IN THE SAME PROCESS (state shared between image objects would show)
+                other = w.file("other.akai", L.aw.build_akai_image(expand_akai(inputs["other_first"])))
+                L.do_export(other, w.sub("_other"))
+            src = L.open_with_history(img, inputs["history"], w) if inputs.get("history") else img
+            stdout, err = L.do_export(src, out)
             return {"files": L.read_tree(out), "stdout": stdout, "error": type(err).__name__ if err else None,
                     "error_text": repr(err)[:300] if err else None, "model": model}
     return {"call": run, "env": {}}
@@ -176,6 +181,10 @@ def _small_c01(tier, seed, shard=(0, 1)):
         if k % shard[1] != shard[0]:
             continue
         yield {"model": m}
+        # the same image after earlier actions on the same opened object, and after another image in the same process
+        if k % 5 == 0 or len(m["partitions"]) > 1:
+            yield {"model": m, "history": ["ls", "export"] if k % 2 else ["export", "ls:A:", "export"]}
+            yield {"model": m, "other_first": cases[(k * 7) % len(cases)]}
     # left/right pairs: one stereo file per pair, L in channel 0 whatever the directory order
     if shard[0] == 0:
         for order in (("PAD -L", "PAD -R"), ("PAD -R", "PAD -L"), ("STR L", "STR R")):
@@ -260,6 +269,8 @@ def _build_c02(inputs):
         with L.Workdir() as w:
             img = w.file("img.s7xx", raw)
             out = w.sub("out")
+            if inputs.get("history"):
+                img = L.open_with_history(img, inputs["history"], w)
             stdout, err = L.do_export(img, out)
             return {"files": L.read_tree(out), "stdout": stdout, "error": type(err).__name__ if err else None,
                     "error_text": repr(err)[:300] if err else None, "model": model}
@@ -374,6 +385,8 @@ def _small_c02(tier, seed, shard=(0, 1)):
         k += 1
         if k % shard[1] == shard[0]:
             yield {"model": m}
+            if k % 4 == 0:
+                yield {"model": m, "history": ["ls", "export"] if k % 8 else ["export", "export"]}
 
 
 @contract("e2e:C02", props=["C02", "C04"], abstract=True)
